@@ -43,6 +43,7 @@
   this guard the model is the code, statement by statement; outside it the Python code either raises or
   wraps around and the model is not claimed to follow it (the driver answers `ERR`).
   `Lemmas/A51Loops*.lean` prove `knotInsertionA51 = knotInsertion` (the index-by-index model) under the guard.
+  The list-of-rows branch of the same routine is `Model/InsertRowsA51.lean`.
 -/
 import NurbsVerif.Model.Knots
 
